@@ -133,6 +133,13 @@ class DomainParser:
 
             same_type_constants.append(constant_name)
 
+        # constants that are listed after the last typed group (or in an untyped list) are of type object.
+        constants.update(
+            {
+                name: PDDLConstant(name, domain_types["object"])
+                for name in same_type_constants
+            }
+        )
         self.logger.debug(f"Extracted {len(constants)} from the domain.")
         return constants
 
